@@ -1,6 +1,8 @@
 import Momtrop.Props.C07
 import Momtrop.Props.C14
 import Mathlib.Algebra.BigOperators.Group.List.Basic
+import Mathlib.Algebra.Order.BigOperators.GroupWithZero.List
+import Mathlib.Analysis.SpecialFunctions.Pow.Real
 /-!
 # C07, sector formula in closed form
 
@@ -194,6 +196,53 @@ theorem replay_get (T : STable α) : ∀ (tr : List (Step α)) (κ : α) (x : Li
       have hk' : k < rest.length := by simpa using hk
       exact ih _ _ hnd.2 (fun t ht => by rw [List.length_set]; exact hlt t (List.mem_cons_of_mem _ ht)) k hk'
 
+/-- replay of the tropical bookkeeping: `u_trop` is multiplied by the current `κ` exactly at the removals that lower the loop
+number, `v_trop` is set to the current `κ` exactly at the removals that lose mass-momentum spanning -/
+def tropReplay (T : STable α) : α → α → α → Mask → List (Step α) → α × α
+  | _, u, v, _, [] => (u, v)
+  | κ, u, v, g, s :: rest =>
+    tropReplay T (nextKappa T κ s) (if T.loops s.rest < T.loops g then u * κ else u)
+      (if T.mms g && !T.mms s.rest then κ else v) s.rest rest
+
+/-- **`u_trop`, `v_trop` of the loop are the replay of its trace** (every scalar type). -/
+theorem permLoop_trop (T : STable α) (xs : List α) :
+    ∀ (fuel : Nat) (g : Mask) (st st' : PState α), permLoop T xs fuel g st = some st' →
+      (st'.uTr, st'.vTr) = tropReplay T st.kappa st.uTr st.vTr g (permTrace T xs fuel g st.cnt) := by
+  intro fuel
+  induction fuel with
+  | zero =>
+    intro g st st' h
+    simp only [permLoop, Option.some.injEq] at h
+    subst h
+    simp [permTrace, tropReplay]
+  | succ fuel ih =>
+    intro g st st' h
+    unfold permLoop at h
+    unfold permTrace
+    by_cases hg : Mask.isEmpty g = true
+    · simp only [hg, if_true, Option.some.injEq] at h
+      subst h
+      simp [hg, tropReplay]
+    · simp only [hg, Bool.false_eq_true, if_false] at h ⊢
+      cases hc : chooseEdge T xs g st.cnt with
+      | none => simp [hc] at h
+      | some r =>
+        obtain ⟨e, g', cnt⟩ := r
+        simp only [hc] at h ⊢
+        by_cases hz : Mask.isEmpty g' = true
+        · simp only [hz, if_true, Option.some.injEq] at h ⊢
+          subst h
+          simp [tropReplay]
+        · simp only [hz, Bool.false_eq_true, if_false] at h ⊢
+          cases hx : xs[cnt]? with
+          | none => simp [hx] at h
+          | some xi =>
+            simp only [hx] at h ⊢
+            have := ih g' _ st' h
+            simp only at this
+            rw [this]
+            simp [tropReplay, nextKappa]
+
 end S
 
 section R
@@ -254,6 +303,36 @@ theorem sector_formula (T : STable ℝ) (xs : List ℝ) (r : PermResult ℝ) (h 
     refine ⟨hget, ?_⟩
     rw [List.getElem?_map, hget]
     rfl
+
+/-- every factor `ξ^(1/ω)` lies in `(0,1]` when `ξ ∈ (0,1]` and `ω > 0` (what the sampler guarantees: `ξ` is a uniform number and every
+remaining graph of an accepted table has positive generalised degree of divergence, C05) -/
+theorem factor_mem (T : STable ℝ) (s : Step ℝ)
+    (h : ∀ xi, s.xi = some xi → 0 < xi ∧ xi ≤ 1 ∧ 0 < T.omega s.rest) : 0 < factor T s ∧ factor T s ≤ 1 := by
+  unfold factor
+  cases hx : s.xi with
+  | none => simp
+  | some xi =>
+    obtain ⟨h0, h1, hw⟩ := h xi hx
+    refine ⟨Real.rpow_pos_of_pos h0 _, Real.rpow_le_one h0.le h1 (inv_pos.mpr hw).le⟩
+
+/-- **The parameters decrease along the removal order**: `x_{s_{k+1}} = x_{s_k}·ξ_k^(1/ω(g_k)) ≤ x_{s_k}`, all positive — the
+ordering on which the greedy (largest-monomial) reading of `u_trop`, `v_trop` rests. -/
+theorem sector_monotone (T : STable ℝ) (tr : List (Step ℝ))
+    (h : ∀ s ∈ tr, ∀ xi, s.xi = some xi → 0 < xi ∧ xi ≤ 1 ∧ 0 < T.omega s.rest) (k : Nat) (hk : k < tr.length) :
+    0 < ((tr.take (k + 1)).map (factor T)).prod ∧
+      ((tr.take (k + 1)).map (factor T)).prod ≤ ((tr.take k).map (factor T)).prod ∧
+      0 < ((tr.take k).map (factor T)).prod := by
+  have hpos : ∀ n, 0 < ((tr.take n).map (factor T)).prod := by
+    intro n
+    apply List.prod_pos
+    intro a ha
+    obtain ⟨s, hs, rfl⟩ := List.mem_map.mp ha
+    exact (factor_mem T s (h s (List.mem_of_mem_take hs))).1
+  refine ⟨hpos _, ?_, hpos _⟩
+  rw [List.take_succ, List.getElem?_eq_getElem hk, Option.toList_some, List.map_append, List.prod_append]
+  simp only [List.map_cons, List.map_nil, List.prod_cons, List.prod_nil, mul_one]
+  have hf := (factor_mem T tr[k] (h _ (List.getElem_mem hk))).2
+  exact mul_le_of_le_one_right (hpos k).le hf
 
 end R
 end Momtrop.C07
